@@ -517,6 +517,20 @@ def total(items, unit):
     return tot
 
 
+def loops_of_call(w, fn):
+    """the loops a followed function opened directly in the frame it was called in (in order)"""
+    sp = w.spans.get(id(fn))
+    if sp is None:
+        return []
+    fid, n0, n1 = sp
+    out = []
+    for lp in loops_in(w.top.items):
+        p = fn_parts(lp.frame)
+        if p is not None and p[0] == "frame" and p[1][0].equals(fid) and n0 < p[1][1].const_value() <= n1:
+            out.append(lp)
+    return out
+
+
 def loops_in(items, deep=True):
     out = []
     for it in items:
@@ -691,6 +705,7 @@ class Walker:
         self._ret_stack = [self.returns]
         self._breaks = []         # per open loop: environments at its `break` statements
         self.bound = {}           # id(followed FunctionDef) -> {parameter: value} of its (last) call
+        self.spans = {}           # id(followed FunctionDef) -> (frame id, loops of that frame before the call, after the call)
         self._cells = []          # subscript stores of followed callees
         self.all_inits = []       # (buffer name, creating value, statement)
         cache = ctx.__dict__.setdefault("_c11_tables_fx", {})
@@ -779,7 +794,19 @@ class Walker:
         return self
 
     def run(self, stmts):
-        for st in stmts:
+        stmts = list(stmts)
+        for i, st in enumerate(stmts):
+            if isinstance(st, ast.If) and i + 1 < len(stmts) and self.ev.decide(st.test) is None:
+                # early exit: `if c: ...; return` followed by the rest  ==  `if c: ... return  else: <the rest>` (and the mirrored form),
+                # so that an arm written as an early return is compared with its sibling like any other arm
+                new = None
+                if not st.orelse and _always_exits(st.body):
+                    new = ast.If(test=st.test, body=st.body, orelse=stmts[i + 1:])
+                elif st.orelse and _always_exits(st.orelse) and not _always_exits(st.body):
+                    new = ast.If(test=st.test, body=list(st.body) + stmts[i + 1:], orelse=st.orelse)
+                if new is not None:
+                    ast.copy_location(new, st)
+                    return self.stmt(new)
             r = self.stmt(st)
             if r is not None:
                 return r
@@ -973,7 +1000,7 @@ class Walker:
         ff = [e for e in fE if e[0] == "fromfile"][0]
         un = [e for e in sE if e[0] == "unpack"][0]
         rd = [e for e in sE if e[0] == "read"][0]
-        self.cutovers.append({"node": st, "test": cv, "dtype": ff[1], "count_ff": ff[2], "nbytes": rd[2], "fmt": un[1], "data": un[2],
+        self.cutovers.append({"node": st, "test": cv, "frame": self.frame.id, "dtype": ff[1], "count_ff": ff[2], "nbytes": rd[2], "fmt": un[1], "data": un[2],
                               "read": rd[1], "unpack_node": un[3], "fromfile_node": ff[3], "struct_first": kA == "un", "depth": self.depth,
                               "function": self.stack[-1].name})
         return [("B", rd[2])]
@@ -1320,6 +1347,7 @@ class Walker:
             if k.startswith("self.") and k not in env:
                 env[k] = v
         self.bound[id(fn2)] = dict(env)
+        span_frame, span_n0 = self.frame, self.frame.nloops
         sub = self._new_ev(fn2, env)
         keep = self.ev
         rets = []
@@ -1340,6 +1368,7 @@ class Walker:
             if k.startswith("self."):
                 keep.env[k] = v
         self._cells.extend(sub.cells)
+        self.spans[id(fn2)] = (span_frame.id, span_n0, span_frame.nloops)
         if not rets:
             return F.sym("None")
         # several returns: the value is selected by the guards under which they are reached
@@ -1397,6 +1426,17 @@ def _file_effects(table):
             if f not in eff and cs & eff:
                 eff.add(f)
     return eff
+
+
+def _always_exits(stmts):
+    if not stmts:
+        return False
+    last = stmts[-1]
+    if isinstance(last, (ast.Return, ast.Raise, ast.Break, ast.Continue)):
+        return True
+    if isinstance(last, ast.If):
+        return bool(last.orelse) and _always_exits(last.body) and _always_exits(last.orelse)
+    return False
 
 
 def _is_getter(f):
